@@ -1,12 +1,701 @@
-//! Family `texc`: C20 — texture containers.  (stub)
+//! Family `texc`: C20 — texture containers CTPK / BCH / CGFX / TPL.
+//!
+//! Case lines:
+//!   <id> read <kind> <file-hex> <n> {<name-hex> <w> <h> <fmt> <payoff> <paylen> <paloff> <pallen>}*
+//!        a spec-built container and the textures packed into it (extents into the file);
+//!        `<n>` = `~` for malformed input (no claim about content)
+//!   <id> prefixes <kind> <file-hex> <n> {…}*      every strict prefix of the same file
+//! Implementation lines:
+//!   <id> <dev|release> ok <n> {<name-hex> <w> <h> <pixels-hex>}*  |  … err <Class>  |  … panic
+//!   <id> <dev|release> <a>-<b>:<class>,…      run-length list over the cut positions; class =
+//!        `panic`, `err.<Class>` or `ok.<h1>.<h2>` (two 64-bit hashes of the `read` output text)
+//!
+//! The builders mirror `lean/MilaModel/Spec/TexContainers.lean`: only the bytes the formats define
+//! are written (header fields, pointer fields, names, payloads); tables, names and payloads are
+//! placed in random order with random gaps filled with junk, section bases are chosen at random
+//! below their first item.
 #![allow(unused)]
 use crate::util::*;
+use mila::*;
 
-pub fn gen(_seed: u64, _tier: &str) -> Vec<String> {
-    Vec::new()
+pub const PROFILE: &str = if cfg!(debug_assertions) { "dev" } else { "release" };
+
+#[derive(Clone, Debug)]
+pub struct Tex {
+    pub name: String,
+    pub w: u32,
+    pub h: u32,
+    pub fmt: u32,
+    pub payload: Vec<u8>,
+    pub palette: Vec<u8>,
+}
+
+#[derive(Clone, Debug, Default)]
+pub struct Built {
+    pub file: Vec<u8>,
+    /// per texture: (payload offset, payload length, palette offset, palette length)
+    pub ext: Vec<(usize, usize, usize, usize)>,
+}
+
+// ---------------------------------------------------------------------------------------------
+// Shift-JIS sub-alphabet (ASCII, half-width katakana, hiragana, katakana) — the alphabet of the
+// model's `sjisStrict`.
+// ---------------------------------------------------------------------------------------------
+pub fn sjis_sub(s: &str) -> Option<Vec<u8>> {
+    let mut out = Vec::new();
+    for c in s.chars() {
+        let cp = c as u32;
+        if cp < 0x80 {
+            out.push(cp as u8);
+        } else if (0xFF61..=0xFF9F).contains(&cp) {
+            out.push((cp - 0xFF61 + 0xA1) as u8);
+        } else if (0x3041..=0x3093).contains(&cp) {
+            out.push(0x82);
+            out.push((0x9F + (cp - 0x3041)) as u8);
+        } else if (0x30A1..=0x30DF).contains(&cp) {
+            out.push(0x83);
+            out.push((0x40 + (cp - 0x30A1)) as u8);
+        } else if (0x30E0..=0x30F6).contains(&cp) {
+            out.push(0x83);
+            out.push((0x80 + (cp - 0x30E0)) as u8);
+        } else {
+            return None;
+        }
+    }
+    Some(out)
+}
+
+// ---------------------------------------------------------------------------------------------
+// chunk placement
+// ---------------------------------------------------------------------------------------------
+struct Chunk {
+    size: usize,
+    after: Vec<usize>,
+    pos: usize,
+}
+
+struct Placer {
+    chunks: Vec<Chunk>,
+}
+
+impl Placer {
+    fn new() -> Self {
+        Placer { chunks: Vec::new() }
+    }
+    fn add(&mut self, size: usize, after: &[usize]) -> usize {
+        self.chunks.push(Chunk { size, after: after.to_vec(), pos: usize::MAX });
+        self.chunks.len() - 1
+    }
+    /// Places every chunk at or after `start`; returns the end of the last chunk.
+    fn place(&mut self, start: usize, rng: &mut Rng, shuffle: bool) -> usize {
+        let n = self.chunks.len();
+        let mut cursor = start;
+        let mut placed = 0;
+        while placed < n {
+            let ready: Vec<usize> = (0..n)
+                .filter(|&i| self.chunks[i].pos == usize::MAX && self.chunks[i].after.iter().all(|&d| self.chunks[d].pos != usize::MAX))
+                .collect();
+            let pick = if shuffle { *rng.pick(&ready) } else { ready[0] };
+            if shuffle {
+                match rng.below(4) {
+                    0 => {}
+                    1 => cursor += rng.below(4) as usize,
+                    2 => cursor = (cursor + 3) / 4 * 4,
+                    _ => cursor += rng.below(12) as usize,
+                }
+            }
+            self.chunks[pick].pos = cursor;
+            cursor += self.chunks[pick].size;
+            placed += 1;
+        }
+        cursor
+    }
+    fn pos(&self, i: usize) -> usize {
+        self.chunks[i].pos
+    }
+}
+
+fn put(file: &mut [u8], off: usize, bytes: &[u8]) {
+    file[off..off + bytes.len()].copy_from_slice(bytes);
+}
+fn put16(file: &mut [u8], off: usize, v: u32) {
+    put(file, off, &(v as u16).to_le_bytes());
+}
+fn put32(file: &mut [u8], off: usize, v: u32) {
+    put(file, off, &v.to_le_bytes());
+}
+fn putb16(file: &mut [u8], off: usize, v: u32) {
+    put(file, off, &(v as u16).to_be_bytes());
+}
+fn putb32(file: &mut [u8], off: usize, v: u32) {
+    put(file, off, &v.to_be_bytes());
+}
+fn base_below(min_pos: Option<usize>, total: usize, rng: &mut Rng, shuffle: bool) -> usize {
+    match min_pos {
+        Some(m) => {
+            if shuffle {
+                rng.range(0, m as u64) as usize
+            } else {
+                m
+            }
+        }
+        None => rng.below(total as u64 + 1) as usize,
+    }
+}
+
+// ---------------------------------------------------------------------------------------------
+// builders
+// ---------------------------------------------------------------------------------------------
+pub fn build_ctpk(texs: &[Tex], rng: &mut Rng, shuffle: bool) -> Built {
+    let n = texs.len();
+    let names: Vec<Vec<u8>> = texs.iter().map(|t| sjis_sub(&t.name).expect("name outside the Shift-JIS sub-alphabet")).collect();
+    let mut pl = Placer::new();
+    let name_c: Vec<usize> = names.iter().map(|b| pl.add(b.len() + 1, &[])).collect();
+    let pay_c: Vec<usize> = texs.iter().map(|t| pl.add(t.payload.len(), &[])).collect();
+    let end = pl.place(0x20 + 0x20 * n, rng, shuffle);
+    let total = end + if shuffle { rng.below(6) as usize } else { 0 };
+    let mut file = if shuffle { rng.bytes(total) } else { vec![0u8; total] };
+    let base = base_below(pay_c.iter().map(|&c| pl.pos(c)).min(), total, rng, shuffle);
+    put(&mut file, 0, b"CTPK");
+    put16(&mut file, 4, 1);
+    put16(&mut file, 6, n as u32);
+    put32(&mut file, 8, base as u32);
+    let mut ext = Vec::new();
+    for i in 0..n {
+        let e = 0x20 + 0x20 * i;
+        put32(&mut file, e, pl.pos(name_c[i]) as u32);
+        put32(&mut file, e + 4, texs[i].payload.len() as u32);
+        put32(&mut file, e + 8, (pl.pos(pay_c[i]) - base) as u32);
+        put32(&mut file, e + 0xC, texs[i].fmt);
+        put16(&mut file, e + 0x10, texs[i].w);
+        put16(&mut file, e + 0x12, texs[i].h);
+        put(&mut file, pl.pos(name_c[i]), &names[i]);
+        file[pl.pos(name_c[i]) + names[i].len()] = 0;
+        put(&mut file, pl.pos(pay_c[i]), &texs[i].payload);
+        ext.push((pl.pos(pay_c[i]), texs[i].payload.len(), 0, 0));
+    }
+    Built { file, ext }
+}
+
+/// `compat` = backward-compatibility byte; the header is extended when the *library* says so (`> 20`).
+pub fn build_bch(texs: &[Tex], compat: u8, rng: &mut Rng, shuffle: bool) -> Built {
+    let n = texs.len();
+    let hlen = if compat > 20 { 64 } else { 56 };
+    let mut pl = Placer::new();
+    let ct = pl.add(0x2C, &[]);
+    let table = pl.add(4 * n, &[ct]);
+    let desc: Vec<usize> = (0..n).map(|_| pl.add(0x20, &[ct])).collect();
+    let cmd: Vec<usize> = (0..n).map(|_| pl.add(0x1C, &[])).collect();
+    let name_c: Vec<usize> = texs.iter().map(|t| pl.add(t.name.len() + 1, &[])).collect();
+    let pay_c: Vec<usize> = texs.iter().map(|t| pl.add(t.payload.len(), &[])).collect();
+    let end = pl.place(hlen, rng, shuffle);
+    let total = end + if shuffle { rng.below(6) as usize } else { 0 };
+    let mut file = if shuffle { rng.bytes(total) } else { vec![0u8; total] };
+    let contents = pl.pos(ct);
+    let strings = base_below(name_c.iter().map(|&c| pl.pos(c)).min(), total, rng, shuffle);
+    let commands = base_below(cmd.iter().map(|&c| pl.pos(c)).min(), total, rng, shuffle);
+    let raw = base_below(pay_c.iter().map(|&c| pl.pos(c)).min(), total, rng, shuffle);
+    put(&mut file, 0, b"BCH\0");
+    file[4] = compat;
+    put32(&mut file, 8, contents as u32);
+    put32(&mut file, 12, strings as u32);
+    put32(&mut file, 16, commands as u32);
+    put32(&mut file, 20, raw as u32);
+    put32(&mut file, contents + 0x24, (pl.pos(table) - contents) as u32);
+    put32(&mut file, contents + 0x28, n as u32);
+    let mut ext = Vec::new();
+    for i in 0..n {
+        put32(&mut file, pl.pos(table) + 4 * i, (pl.pos(desc[i]) - contents) as u32);
+        let d = pl.pos(desc[i]);
+        put32(&mut file, d, (pl.pos(cmd[i]) - commands) as u32);
+        put32(&mut file, d + 0x1C, (pl.pos(name_c[i]) - strings) as u32);
+        let k = pl.pos(cmd[i]);
+        put16(&mut file, k, texs[i].h);
+        put16(&mut file, k + 2, texs[i].w);
+        put32(&mut file, k + 0x10, (pl.pos(pay_c[i]) - raw) as u32);
+        put32(&mut file, k + 0x18, texs[i].fmt);
+        put(&mut file, pl.pos(name_c[i]), texs[i].name.as_bytes());
+        file[pl.pos(name_c[i]) + texs[i].name.len()] = 0;
+        put(&mut file, pl.pos(pay_c[i]), &texs[i].payload);
+        ext.push((pl.pos(pay_c[i]), texs[i].payload.len(), 0, 0));
+    }
+    Built { file, ext }
+}
+
+pub fn build_cgfx(texs: &[Tex], rng: &mut Rng, shuffle: bool) -> Built {
+    let n = texs.len();
+    let mut pl = Placer::new();
+    let dict = pl.add(0x1C + 16 * n, &[]);
+    let txob: Vec<usize> = (0..n).map(|_| pl.add(0x4C, &[dict])).collect();
+    let name_c: Vec<usize> = (0..n).map(|i| pl.add(texs[i].name.len() + 1, &[txob[i]])).collect();
+    let pay_c: Vec<usize> = (0..n).map(|i| pl.add(texs[i].payload.len(), &[txob[i]])).collect();
+    let end = pl.place(0x9C, rng, shuffle);
+    let total = end + if shuffle { rng.below(6) as usize } else { 0 };
+    let mut file = if shuffle { rng.bytes(total) } else { vec![0u8; total] };
+    put(&mut file, 0, b"CGFX");
+    put(&mut file, 0x14, b"DATA");
+    for j in 0..16 {
+        // self-relative offsets that stay inside 32 bits
+        put32(&mut file, 0x20 + 8 * j, rng.below(0x2000) as u32);
+    }
+    let d = pl.pos(dict);
+    put32(&mut file, 0x28, (d - 0x28) as u32);
+    put(&mut file, d, b"DICT");
+    put32(&mut file, d + 8, n as u32);
+    let mut ext = Vec::new();
+    for i in 0..n {
+        let e = d + 0x1C + 16 * i;
+        put32(&mut file, e + 8, rng.below(0x2000) as u32);
+        let t = pl.pos(txob[i]);
+        put32(&mut file, e + 12, (t - (e + 12)) as u32);
+        put(&mut file, t + 4, b"TXOB");
+        put32(&mut file, t + 0xC, (pl.pos(name_c[i]) - (t + 0xC)) as u32);
+        put32(&mut file, t + 0x18, texs[i].h);
+        put32(&mut file, t + 0x1C, texs[i].w);
+        put32(&mut file, t + 0x34, texs[i].fmt);
+        put32(&mut file, t + 0x44, texs[i].payload.len() as u32);
+        put32(&mut file, t + 0x48, (pl.pos(pay_c[i]) - (t + 0x48)) as u32);
+        put(&mut file, pl.pos(name_c[i]), texs[i].name.as_bytes());
+        file[pl.pos(name_c[i]) + texs[i].name.len()] = 0;
+        put(&mut file, pl.pos(pay_c[i]), &texs[i].payload);
+        ext.push((pl.pos(pay_c[i]), texs[i].payload.len(), 0, 0));
+    }
+    Built { file, ext }
+}
+
+pub fn build_tpl(texs: &[Tex], rng: &mut Rng, shuffle: bool) -> Built {
+    let n = texs.len();
+    let mut pl = Placer::new();
+    let table = pl.add(8 * n, &[]);
+    let ih: Vec<usize> = (0..n).map(|_| pl.add(36, &[])).collect();
+    let ph: Vec<usize> = (0..n).map(|_| pl.add(12, &[])).collect();
+    let pay_c: Vec<usize> = texs.iter().map(|t| pl.add(t.payload.len(), &[])).collect();
+    let pal_c: Vec<usize> = texs.iter().map(|t| pl.add(t.palette.len(), &[])).collect();
+    let end = pl.place(12, rng, shuffle);
+    let total = end + if shuffle { rng.below(6) as usize } else { 0 };
+    let mut file = if shuffle { rng.bytes(total) } else { vec![0u8; total] };
+    putb32(&mut file, 0, 0x0020AF30);
+    putb32(&mut file, 4, n as u32);
+    putb32(&mut file, 8, pl.pos(table) as u32);
+    let mut ext = Vec::new();
+    for i in 0..n {
+        let t = pl.pos(table) + 8 * i;
+        putb32(&mut file, t, pl.pos(ih[i]) as u32);
+        putb32(&mut file, t + 4, pl.pos(ph[i]) as u32);
+        let a = pl.pos(ih[i]);
+        putb16(&mut file, a, texs[i].h);
+        putb16(&mut file, a + 2, texs[i].w);
+        putb32(&mut file, a + 4, texs[i].fmt);
+        putb32(&mut file, a + 8, pl.pos(pay_c[i]) as u32);
+        let b = pl.pos(ph[i]);
+        putb16(&mut file, b, (texs[i].palette.len() / 2) as u32);
+        putb32(&mut file, b + 4, 2);
+        putb32(&mut file, b + 8, pl.pos(pal_c[i]) as u32);
+        put(&mut file, pl.pos(pay_c[i]), &texs[i].payload);
+        put(&mut file, pl.pos(pal_c[i]), &texs[i].palette);
+        ext.push((pl.pos(pay_c[i]), texs[i].payload.len(), pl.pos(pal_c[i]), texs[i].palette.len()));
+    }
+    Built { file, ext }
+}
+
+// ---------------------------------------------------------------------------------------------
+// texture generators
+// ---------------------------------------------------------------------------------------------
+pub const FORMATS_3DS: [u32; 9] = [0, 2, 3, 4, 5, 7, 8, 12, 13];
+
+/// bits per pixel of the supported formats (integer arithmetic; independent of the library's f32 table).
+pub fn bits_per_pixel(fmt: u32) -> Option<usize> {
+    match fmt {
+        0 => Some(32),
+        1 => Some(24),
+        2..=5 => Some(16),
+        6..=9 | 11 | 13 => Some(8),
+        10 | 12 => Some(4),
+        _ => None,
+    }
+}
+
+const ASCII_NAMES: [&str; 8] = ["a", "tex0", "Face_01.png", "body diffuse", "x.y.z", "#%~!", "", "A"];
+const SJIS_NAMES: [&str; 6] = ["あいう", "テクスチャ", "ｱｲｳ", "かおtex", "ア", "ﾃｸｽﾁｬ01"];
+const UTF8_NAMES: [&str; 10] = ["é", "日本語", "\u{FEFF}abc", "😀face", "ñandú", "\u{FFFE}x", "\u{FEFF}", "tex_ü_β", "\u{10FFFF}", "中"];
+
+pub fn gen_name(rng: &mut Rng, sjis: bool) -> String {
+    match rng.below(10) {
+        0..=3 => rng.pick(&ASCII_NAMES).to_string(),
+        4..=6 => {
+            if sjis {
+                rng.pick(&SJIS_NAMES).to_string()
+            } else {
+                rng.pick(&UTF8_NAMES).to_string()
+            }
+        }
+        _ => {
+            // random string over the alphabet
+            let len = rng.range(1, 6);
+            let mut s = String::new();
+            for _ in 0..len {
+                let c = if sjis {
+                    match rng.below(4) {
+                        0 => char::from_u32(0x3041 + rng.below(0x53) as u32).unwrap(),
+                        1 => char::from_u32(0x30A1 + rng.below(0x56) as u32).unwrap(),
+                        2 => char::from_u32(0xFF61 + rng.below(0x3F) as u32).unwrap(),
+                        _ => char::from_u32(0x21 + rng.below(0x5E) as u32).unwrap(),
+                    }
+                } else {
+                    match rng.below(5) {
+                        0 => char::from_u32(0x80 + rng.below(0x780) as u32).unwrap(),
+                        1 => loop {
+                            let c = 0x800 + rng.below(0xF800) as u32;
+                            if let Some(c) = char::from_u32(c) {
+                                break c;
+                            }
+                        },
+                        2 => char::from_u32(0x10000 + rng.below(0x100000) as u32).unwrap(),
+                        _ => char::from_u32(0x21 + rng.below(0x5E) as u32).unwrap(),
+                    }
+                };
+                s.push(c);
+            }
+            s
+        }
+    }
+}
+
+pub fn gen_tex_3ds(rng: &mut Rng, sjis: bool, big: bool) -> Tex {
+    let fmt = *rng.pick(&FORMATS_3DS);
+    let sizes: &[u32] = if big { &[8, 16, 32] } else { &[8, 8, 8, 16] };
+    let w = *rng.pick(sizes);
+    let h = *rng.pick(sizes);
+    let len = bits_per_pixel(fmt).unwrap() * (w * h) as usize / 8;
+    Tex { name: gen_name(rng, sjis), w, h, fmt, payload: rng.bytes(len), palette: Vec::new() }
+}
+
+pub fn gen_tex_tpl(rng: &mut Rng, big: bool) -> Tex {
+    let (w, h) = if big { (rng.range(1, 64) as u32, rng.range(1, 64) as u32) } else { (rng.range(1, 18) as u32, rng.range(1, 10) as u32) };
+    let entries = *rng.pick(&[1usize, 2, 5, 16, 32, 256]);
+    let aw = (w as usize + 7) / 8 * 8;
+    let ah = (h as usize + 3) / 4 * 4;
+    let payload: Vec<u8> = (0..aw * ah).map(|_| rng.below(entries as u64) as u8).collect();
+    Tex { name: String::new(), w, h, fmt: 9, payload, palette: rng.bytes(entries * 2) }
+}
+
+pub const KINDS: [&str; 4] = ["ctpk", "bch", "cgfx", "tpl"];
+
+pub fn build(kind: &str, texs: &[Tex], compat: u8, rng: &mut Rng, shuffle: bool) -> Built {
+    match kind {
+        "ctpk" => build_ctpk(texs, rng, shuffle),
+        "bch" => build_bch(texs, compat, rng, shuffle),
+        "cgfx" => build_cgfx(texs, rng, shuffle),
+        "tpl" => build_tpl(texs, rng, shuffle),
+        _ => panic!("kind"),
+    }
+}
+
+fn tex_fields(texs: &[Tex], b: &Built) -> String {
+    let mut s = format!("{}", texs.len());
+    for (t, e) in texs.iter().zip(b.ext.iter()) {
+        s.push_str(&format!(" {} {} {} {} {} {} {} {}", hexs(&t.name), t.w, t.h, t.fmt, e.0, e.1, e.2, e.3));
+    }
+    s
+}
+
+const COMPATS: [u8; 10] = [0, 7, 20, 21, 0x20, 0x21, 0x22, 0x40, 0x80, 0xFF];
+
+pub fn gen(seed: u64, tier: &str) -> Vec<String> {
+    let thorough = tier == "thorough";
+    let mut rng = Rng::new(seed ^ 0xC20);
+    let mut lines = Vec::new();
+    let mut id = 0usize;
+    let mut next = |lines: &mut Vec<String>, body: String| {
+        lines.push(format!("c20.{:06} {}", id, body));
+        id += 1;
+    };
+    // 1. conforming containers: 0..=6 textures, shuffled and canonical placement; read + every prefix
+    let rounds = if thorough { 60 } else { 6 };
+    for round in 0..rounds {
+        for kind in KINDS.iter() {
+            for shuffle in [false, true] {
+                let n = if round == 0 { if shuffle { 1 } else { 0 } } else { rng.range(0, 6) as usize };
+                let big = thorough && rng.chance(1, 4);
+                let texs: Vec<Tex> = (0..n)
+                    .map(|_| if *kind == "tpl" { gen_tex_tpl(&mut rng, big) } else { gen_tex_3ds(&mut rng, *kind == "ctpk", big) })
+                    .collect();
+                let compat = *rng.pick(&COMPATS);
+                let b = build(kind, &texs, compat, &mut rng, shuffle);
+                let f = tex_fields(&texs, &b);
+                next(&mut lines, format!("read {} {} {}", kind, hex(&b.file), f));
+                // every truncation point (quick: files up to 3 KiB; thorough: up to 12 KiB)
+                if b.file.len() <= if thorough { 12288 } else { 3072 } {
+                    next(&mut lines, format!("prefixes {} {} {}", kind, hex(&b.file), f));
+                }
+            }
+        }
+    }
+    // 2. BCH compatibility byte on both sides of the threshold (N2), one texture each
+    for &compat in COMPATS.iter() {
+        let texs = vec![gen_tex_3ds(&mut rng, false, false)];
+        let b = build_bch(&texs, compat, &mut rng, true);
+        next(&mut lines, format!("read bch {} {}", hex(&b.file), tex_fields(&texs, &b)));
+    }
+    // 2b. minimal BCH files: no textures, the content table overlapping the unused tail of the header, the
+    //     file ending with the last defined byte (header length matters: 56 bytes up to compat 20, 64 above 0x20)
+    for (compat, contents, len) in [(0u8, 16usize, 60usize), (20, 16, 60), (20, 12, 56), (0x21, 20, 64), (0xFF, 24, 68), (0x21, 8, 64)] {
+        let mut f = rng.bytes(len);
+        put(&mut f, 0, b"BCH\0");
+        f[4] = compat;
+        put32(&mut f, 8, contents as u32);
+        put32(&mut f, contents + 0x24, rng.below(0x1000) as u32);
+        put32(&mut f, contents + 0x28, 0);
+        next(&mut lines, format!("read bch {} 0", hex(&f)));
+        next(&mut lines, format!("prefixes bch {} 0", hex(&f)));
+    }
+    // 3. wrong magic (BCH, CGFX, TPL; CTPK has no magic check): every single-byte change of the magic
+    for kind in ["bch", "cgfx", "tpl", "ctpk"] {
+        let texs: Vec<Tex> = (0..2).map(|_| if kind == "tpl" { gen_tex_tpl(&mut rng, false) } else { gen_tex_3ds(&mut rng, kind == "ctpk", false) }).collect();
+        let b = build(kind, &texs, 0x21, &mut rng, true);
+        for pos in 0..4 {
+            for delta in [1u8, 0x20, 0x80, 0xFF] {
+                let mut f = b.file.clone();
+                f[pos] = f[pos].wrapping_add(delta);
+                next(&mut lines, format!("read {} {} ~", kind, hex(&f)));
+            }
+        }
+        let mut f = b.file.clone();
+        f[..4].copy_from_slice(&[0, 0, 0, 0]);
+        next(&mut lines, format!("read {} {} ~", kind, hex(&f)));
+        if kind == "bch" {
+            // "BCH" followed by a non-zero fourth byte
+            let mut f = b.file.clone();
+            f[3] = b'1';
+            next(&mut lines, format!("read {} {} ~", kind, hex(&f)));
+        }
+    }
+    // 4. malformed: boundary values planted in 32-bit offset fields (both arithmetic profiles matter),
+    //    unsupported formats, cut names.  No claim by the oracle; model and code must agree.
+    let corrupt_rounds = if thorough { 400 } else { 60 };
+    for _ in 0..corrupt_rounds {
+        let kind = *rng.pick(&KINDS);
+        let n = rng.range(1, 3) as usize;
+        let texs: Vec<Tex> = (0..n).map(|_| if kind == "tpl" { gen_tex_tpl(&mut rng, false) } else { gen_tex_3ds(&mut rng, kind == "ctpk", false) }).collect();
+        let b = build(kind, &texs, *rng.pick(&COMPATS), &mut rng, true);
+        let mut f = b.file.clone();
+        let fields: Vec<usize> = offset_fields(kind, &f, n);
+        if fields.is_empty() {
+            continue;
+        }
+        let at = *rng.pick(&fields);
+        let len = f.len() as u32;
+        let raw4 = [f[at], f[at + 1], f[at + 2], f[at + 3]];
+        let old = if kind == "tpl" { u32::from_be_bytes(raw4) } else { u32::from_le_bytes(raw4) };
+        let v: u32 = match rng.below(9) {
+            0 => 0,
+            1 => len,
+            2 => len.wrapping_sub(1),
+            3 => len.wrapping_sub(rng.below(8) as u32),
+            4 => 0xFFFF_FFFF,
+            5 => 0xFFFF_FFFF - rng.below(0x40) as u32,
+            6 => 0x8000_0000,
+            7 => old.wrapping_add(1),
+            _ => old.wrapping_sub(1),
+        };
+        if kind == "tpl" {
+            putb32(&mut f, at, v);
+        } else {
+            put32(&mut f, at, v);
+        }
+        next(&mut lines, format!("read {} {} ~", kind, hex(&f)));
+    }
+    // unsupported / out-of-list formats keep the container logic but fail (or not) in the decoder
+    for kind in ["ctpk", "bch", "cgfx"] {
+        for fmt in [1u32, 6, 9, 10, 11, 14, 255, 0x1_0000] {
+            let len = bits_per_pixel(fmt).unwrap_or(0) * 64 / 8;
+            let texs = vec![Tex { name: "u".into(), w: 8, h: 8, fmt, payload: rng.bytes(len), palette: vec![] }];
+            let b = build(kind, &texs, 0, &mut rng, true);
+            next(&mut lines, format!("read {} {} ~", kind, hex(&b.file)));
+        }
+    }
+    // TPL: other image / palette formats, out-of-range index
+    for fmt in [0u32, 1, 2, 3, 4, 5, 6, 7, 8, 10, 11, 14] {
+        let mut t = gen_tex_tpl(&mut rng, false);
+        t.fmt = fmt;
+        let b = build_tpl(&[t], &mut rng, true);
+        next(&mut lines, format!("read tpl {} ~", hex(&b.file)));
+    }
+    {
+        let mut t = gen_tex_tpl(&mut rng, false);
+        t.palette = rng.bytes(4);
+        t.payload[0] = 2;
+        let b = build_tpl(&[t], &mut rng, true);
+        next(&mut lines, format!("read tpl {} ~", hex(&b.file)));
+    }
+    lines
+}
+
+/// Positions of 32-bit offset fields that the malformed stream may overwrite (never sizes,
+/// dimensions or counts: those would only make the library allocate).
+fn offset_fields(kind: &str, f: &[u8], n: usize) -> Vec<usize> {
+    let rd = |o: usize| u32::from_le_bytes([f[o], f[o + 1], f[o + 2], f[o + 3]]) as usize;
+    let rdb = |o: usize| u32::from_be_bytes([f[o], f[o + 1], f[o + 2], f[o + 3]]) as usize;
+    let mut v = Vec::new();
+    match kind {
+        "ctpk" => {
+            v.push(8);
+            for i in 0..n {
+                v.push(0x20 + 0x20 * i + 8);
+            }
+        }
+        "bch" => {
+            v.extend([8usize, 12, 16, 20]);
+            let c = rd(8);
+            v.push(c + 0x24);
+            let table = c + rd(c + 0x24);
+            for i in 0..n {
+                v.push(table + 4 * i);
+                let d = c + rd(table + 4 * i);
+                v.push(d);
+                v.push(d + 0x1C);
+                let k = rd(16) + rd(d);
+                v.push(k + 0x10);
+            }
+        }
+        "cgfx" => {
+            for j in 0..16 {
+                if j != 1 {
+                    v.push(0x20 + 8 * j);
+                }
+            }
+            let d = 0x28 + rd(0x28);
+            for i in 0..n {
+                let e = d + 0x1C + 16 * i;
+                v.push(e + 8);
+                // (the object pointer itself is left alone: a stray TXOB has 32-bit dimensions)
+                let t = e + 12 + rd(e + 12);
+                v.push(t + 0xC);
+                v.push(t + 0x48);
+            }
+        }
+        "tpl" => {
+            v.push(8);
+            let t = rdb(8);
+            for i in 0..n {
+                v.push(t + 8 * i);
+                v.push(t + 8 * i + 4);
+                v.push(rdb(t + 8 * i) + 8);
+                v.push(rdb(t + 8 * i + 4) + 8);
+            }
+        }
+        _ => {}
+    }
+    v
+}
+
+// ---------------------------------------------------------------------------------------------
+// running the implementation
+// ---------------------------------------------------------------------------------------------
+fn io_class(e: &std::io::Error) -> &'static str {
+    if e.kind() == std::io::ErrorKind::UnexpectedEof {
+        "Eof"
+    } else {
+        "Other"
+    }
+}
+
+pub fn decode_err_class(e: &TextureDecodeError) -> &'static str {
+    match e {
+        TextureDecodeError::UnsupportedFormat => "Unsupported",
+        TextureDecodeError::OutOfBoundsIndex => "OutOfBounds",
+        TextureDecodeError::IOError(e) => io_class(e),
+        _ => "Other",
+    }
+}
+
+pub fn parse_err_class(e: &TextureParseError) -> &'static str {
+    match e {
+        TextureParseError::BadMagicNumber => "BadMagic",
+        TextureParseError::BadText => "Decoding",
+        TextureParseError::ParserError(s) => {
+            if s.starts_with("BadMagic") {
+                "BadMagic"
+            } else if s.contains("UnexpectedEof") {
+                "Eof"
+            } else {
+                "Other"
+            }
+        }
+        TextureParseError::IOError(e) => io_class(e),
+        TextureParseError::TextureDecodeError(e) => decode_err_class(e),
+    }
+}
+
+pub fn read_kind(kind: &str, file: &[u8]) -> Result<Result<Vec<Texture>, TextureParseError>, String> {
+    no_panic(|| match kind {
+        "ctpk" => ctpk::read(file),
+        "bch" => bch::read(file),
+        "cgfx" => cgfx::read(file),
+        "tpl" => tpl::Tpl::extract_textures(file),
+        _ => panic!("kind"),
+    })
+}
+
+/// canonical text of a successful read: `<n> {<name-hex> <w> <h> <pixels-hex>}*`
+pub fn textures_text(ts: &[Texture]) -> String {
+    let mut s = format!("{}", ts.len());
+    for t in ts {
+        s.push_str(&format!(" {} {} {} {}", hexs(&t.filename), t.width, t.height, hex(&t.pixel_data)));
+    }
+    s
+}
+
+pub fn outcome(kind: &str, file: &[u8]) -> String {
+    match read_kind(kind, file) {
+        Err(_) => "panic".to_string(),
+        Ok(Err(e)) => format!("err {}", parse_err_class(&e)),
+        Ok(Ok(ts)) => format!("ok {}", textures_text(&ts)),
+    }
+}
+
+pub fn hash2(s: &str) -> (u64, u64) {
+    let mut h1: u64 = 0xcbf29ce484222325;
+    let mut h2: u64 = 0x9E3779B97F4A7C15;
+    for b in s.as_bytes() {
+        h1 ^= *b as u64;
+        h1 = h1.wrapping_mul(0x100000001b3);
+        h2 = h2.wrapping_mul(0x2545F4914F6CDD1D).wrapping_add(*b as u64 + 1);
+        h2 ^= h2 >> 29;
+    }
+    (h1, h2)
+}
+
+fn class_of(kind: &str, file: &[u8]) -> String {
+    match read_kind(kind, file) {
+        Err(_) => "panic".to_string(),
+        Ok(Err(e)) => format!("err.{}", parse_err_class(&e)),
+        Ok(Ok(ts)) => {
+            let (a, b) = hash2(&textures_text(&ts));
+            format!("ok.{:016x}.{:016x}", a, b)
+        }
+    }
 }
 
 pub fn run_line(_st: &mut super::State, line: &str) -> String {
-    let id = line.split(' ').next().unwrap_or("?");
-    format!("{} unimplemented", id)
+    let f: Vec<&str> = line.split(' ').collect();
+    let id = f[0];
+    let kind = f[2];
+    let file = unhex(f[3]);
+    match f[1] {
+        "read" => format!("{} {} {}", id, PROFILE, outcome(kind, &file)),
+        "prefixes" => {
+            let mut runs: Vec<(usize, usize, String)> = Vec::new();
+            for k in 0..file.len() {
+                let c = class_of(kind, &file[..k]);
+                match runs.last_mut() {
+                    Some(r) if r.2 == c => r.1 = k,
+                    _ => runs.push((k, k, c)),
+                }
+            }
+            let text: Vec<String> = runs.iter().map(|r| format!("{}-{}:{}", r.0, r.1, r.2)).collect();
+            format!("{} {} {}", id, PROFILE, if text.is_empty() { "-".to_string() } else { text.join(",") })
+        }
+        _ => format!("{} {} bad-case", id, PROFILE),
+    }
 }
